@@ -227,7 +227,8 @@ def explore(ctx):
                 for feat in ('absent', 'noind', 'sparse', 'sparse_rows'):
                     for sr in (100.0, 30000.0):
                         i += 1
-                        spec = {'n_spikes': 8, 'n_templates': 4, 'n_channels': 5, 'geometry': 'grid',
+                        spec = {'n_spikes': 8, 'n_templates': 4, 'n_channels': 5,
+                                'geometry': ['grid', 'rect'][(i // 8) % 2],
                                 'spike_templates': st, 'spike_clusters': curate(st, how),
                                 'whitening': wh, 'features': feat, 'tfeatures': 'absent', 'raw': False,
                                 'sample_rate': sr, 'nsw': 5, 'fill': ctx.seed + (i % 3),
